@@ -35,7 +35,19 @@ def fa_scenario(rng, tier, jfa=None, sessions=None):
     if ns >= 2 and sessions is None and rng.random() < 0.2:
         k0 = int(rng.integers(0, ns - 1))
         sts[k0] = dict(n=np.zeros(C), f=np.zeros((C, D)), t=0)  # a recording of which no frame was kept
-    return dict(C=C, D=D, rU=rU, rV=rV, jfa=jfa, w=w, m=m, v=v, U=U, V=V, Dd=Dd, sts=sts,
+    ubm_mvt = None
+    if rng.random() < 0.2:
+        # the UBM was trained with a non-default count threshold (a GMM training option: 1e-3 .. 0.5), and one session visited one
+        # Gaussian only marginally: neither is any business of the factor-analysis model
+        ubm_mvt = float(rng.choice([1e-3, 0.05, 0.5]))
+        k0, c0 = int(rng.integers(0, len(sts))), int(rng.integers(0, C))
+        if sts[k0]["n"][c0] > 0:
+            f_ = float(rng.uniform(0.05, 0.6)) * ubm_mvt / sts[k0]["n"][c0]
+            sts[k0]["n"] = np.array(sts[k0]["n"], dtype=float)
+            sts[k0]["f"] = np.array(sts[k0]["f"], dtype=float)
+            sts[k0]["n"][c0] *= f_
+            sts[k0]["f"][c0] *= f_
+    return dict(C=C, D=D, rU=rU, rV=rV, jfa=jfa, w=w, m=m, v=v, U=U, V=V, Dd=Dd, sts=sts, ubm_mvt=ubm_mvt,
                 int_subspaces=int_sub, ubm_int_means=int_means, ubm_layout="F" if rng.random() < 0.2 else "C", route=pick_route(rng), np_ints=bool(rng.random() < 0.3), layout=["C", "C", "F", "strided"][int(rng.integers(0, 4))])
 
 
@@ -110,7 +122,7 @@ def mk_machine(sc, enroll_iterations=1, em_iterations=1):
     v0 = v * rng.uniform(0.3, 3.0, size=v.shape) if other_ubm else v
     # the UBM's parameter arrays in C order or (e.g. assigned as `table.T`) in Fortran order: the same values either way
     lay = np.asfortranarray if sc.get("ubm_layout") == "F" else (lambda a: a)
-    ubm = gen.mk_gmm(w, m0, v0)
+    ubm = gen.mk_gmm(w, m0, v0) if sc.get("ubm_mvt") is None else gen.mk_gmm(w, m0, v0, thr=gen.EPS, mean_var_update_threshold=sc["ubm_mvt"])  # (explicit floors: by default they are the count threshold)
     if sc.get("ubm_layout") == "F":
         ubm.means, ubm.variances = lay(m0), lay(v0)
     as_int = (lambda a: np.rint(a).astype(np.int64)) if sc.get("ubm_int_means") and np.all(m == np.rint(m)) else (lambda a: a)
